@@ -261,8 +261,7 @@ func multiMain(x *X) {
 				x.R.Skipped = "tie"
 				continue
 			}
-			if d.Kind == "value" && orderSensitive(base, c.Data, RefQuery(base, c.Data, base.Eng.LookbackMs).Res) {
-				x.R.Skipped = "order-sensitive"
+			if x.undecidable(base, c.Data) {
 				continue
 			}
 			x.Viol(prop, "variant-differs", d.Kind+"|"+tag+"|"+shape, fmt.Sprintf("%s: %s", desc, d.Detail))
